@@ -94,6 +94,7 @@ func replayRestart(bi int, beh []mbt.Step, in *mbt.Input, res *mbt.Result) {
 	}
 	W := in.CfgInt("W", 1)
 	judgeNewest := in.CfgBool("JudgeNewest", false)
+	judgeLate := in.CfgBool("JudgeLateAck", false) // C12 / C13: a late acknowledgement must not complete an old assembly's checkpoint
 	e, err := newFenv(W)
 	if err != nil {
 		res.Errors = append(res.Errors, "jobs.New: "+err.Error())
@@ -114,6 +115,9 @@ func replayRestart(bi int, beh []mbt.Step, in *mbt.Input, res *mbt.Result) {
 		startEv   *ev      // start() parked in SourceSplitter.Start
 		seen      = map[uint64]bool{}
 		inStart   bool
+		began     int                          // number of starts that have executed their first statements (discard, read)
+		ckStart   = map[uint64]int{}           // checkpoint -> the start (assembly) it was created for
+		ackedReal = map[uint64]map[string]bool{} // acknowledgements the job accepted
 		judged    bool
 		starts    int
 		lost      *fnode
@@ -260,6 +264,7 @@ func replayRestart(bi int, beh []mbt.Step, in *mbt.Input, res *mbt.Result) {
 				return
 			}
 			splitGate = &x
+			began = starts
 		case "SendDeploys":
 			if splitGate == nil {
 				res.Errors = append(res.Errors, fmt.Sprintf("behaviour %d step %d: start() is not parked in NewSourceSplitter", bi, si))
@@ -324,6 +329,7 @@ func replayRestart(bi int, beh []mbt.Step, in *mbt.Input, res *mbt.Result) {
 				return
 			}
 			e.idMap[s.Int("id")] = id
+			ckStart[id] = starts
 		case "Ack":
 			ck, known := e.idMap[s.Int("id")]
 			if !known {
@@ -342,13 +348,89 @@ func replayRestart(bi int, beh []mbt.Step, in *mbt.Input, res *mbt.Result) {
 			} else {
 				rerr, pan = e.srAck(id, ck)
 			}
-			if rerr != nil {
+			accepted := rerr == nil
+			if accepted {
+				if ackedReal[ck] == nil {
+					ackedReal[ck] = map[string]bool{}
+				}
+				ackedReal[ck][id] = true
+			}
+			completes := accepted && len(ackedReal[ck]) == len(e.ckOps[ck])+len(e.ckSrs[ck])
+			old := ckStart[ck] < began // a later start() has already discarded / read: the checkpoint's assembly is no longer the job's
+			if old {
+				res.Count("late_acks", 1)
+			}
+			switch {
+			case completes && old:
+				// model-free: the last acknowledgement of an OLD assembly's checkpoint was accepted. Look at what the job does with it.
+				if !judgeLate {
+					res.Driftf("behaviour %d step %d: a late acknowledgement completed checkpoint %d of a previous assembly (C12 / C13's subject)", bi, si, ck)
+					return
+				}
+				if !e.expectWrite(ck) {
+					res.Driftf("behaviour %d step %d: the job accepted the last acknowledgement of checkpoint %d of a previous assembly but writes no snapshot", bi, si, ck)
+					return
+				}
+				from := e.ev.len()
+				note := ""
+				if msg := e.publish(ck); msg != "" {
+					note = "; " + msg
+				}
+				deadline := time.Now().Add(2 * time.Second)
+				for e.curNow() != ck && time.Now().Before(deadline) {
+					time.Sleep(200 * time.Microsecond)
+				}
+				var retained []string
+				e.ev.wait(from, 300*time.Millisecond, func(x ev) bool { return x.Kind == "retain" })
+				for _, x := range e.ev.since(from) {
+					if x.Kind == "retain" {
+						retained = append(retained, fmt.Sprintf("%s<-%v", x.Node, x.Arg))
+					}
+				}
+				where := "after it runs again"
+				if inStart {
+					where = "while start() is deploying it"
+					if att == nil {
+						where = "after start() has read its recovery checkpoint"
+					}
+				}
+				dep := "nothing yet"
+				if att != nil {
+					dep = fmt.Sprintf("job checkpoint %d", depID)
+				}
+				viol(si, "start %d (assembly %v %v), %s: the acknowledgement of %s for checkpoint %d - a checkpoint of the PREVIOUS assembly (start %d: %v %v), pending when a member was lost - "+
+					"is accepted and completes it: job-%d.snapshot is written, the store's current checkpoint is now %d, retention announcements %v; the new assembly was deployed from %s. "+
+					"A checkpoint may only complete while the assembly that took it is the job's assembly%s",
+					starts, e.asmOps, e.asmSrs, where, id, ck, ckStart[ck], e.ckOps[ck], e.ckSrs[ck], ck, e.curNow(), retained, dep, note)
+				return
+			case accepted && s.Bool("ok"):
+				if s.Bool("complete") != completes {
+					res.Driftf("behaviour %d step %d: acknowledgement of %s for checkpoint %d: model complete=%v, job has %d of %d", bi, si, id, ck, s.Bool("complete"), len(ackedReal[ck]), len(e.ckOps[ck])+len(e.ckSrs[ck]))
+					return
+				}
+				if completes && !e.expectWrite(ck) {
+					res.Driftf("behaviour %d step %d: every member acknowledged checkpoint %d but no snapshot write shows up (C12's subject)", bi, si, ck)
+					return
+				}
+			case accepted: // the model (repaired design) refuses it: the checkpoint was discarded
+				if !old || !judgeLate {
+					res.Driftf("behaviour %d step %d: the job accepts the acknowledgement of %s for checkpoint %d, the model refuses it", bi, si, id, ck)
+					return
+				}
+				res.Count("late_ack_accepted", 1) // not complete: nothing is published (yet); from here on the model is only a schedule
+			case s.Bool("ok"): // refused although the model accepts
+				if old {
+					// a schedule of the deviating design (Dev_DiscardAtRunning): the real job refuses the late acknowledgement, as it must
+					res.Count("late_ack_refused", 1)
+					res.Executed++
+					return
+				}
 				res.Driftf("behaviour %d step %d: the job refuses the acknowledgement of %s for checkpoint %d: %v %s (C12 / C15's subject)", bi, si, id, ck, rerr, pan)
 				return
-			}
-			if s.Bool("complete") && !e.expectWrite(ck) {
-				res.Driftf("behaviour %d step %d: every member acknowledged checkpoint %d but no snapshot write shows up (C12's subject)", bi, si, ck)
-				return
+			default:
+				if old {
+					res.Count("late_ack_refused", 1)
+				}
 			}
 		case "PublishDone":
 			ck, known := e.idMap[s.Int("id")]
